@@ -45,6 +45,22 @@ def eval_term(t, ev, depth=0):
         if p.endswith("::is_empty") and len(t[2]) == 1:
             n = eval_term(("call", "len", (t[2][0],)), ev, depth + 1)
             return _cmp("Eq", n, 0)
+        # operator traits on (references to) integers: `c & 0x80` with c: &u8 is a call of <&u8 as BitAnd<u8>>::bitand
+        opm = {"bitand": "BitAnd", "bitor": "BitOr", "bitxor": "BitXor", "add": "Add", "sub": "Sub", "mul": "Mul", "shl": "Shl", "shr": "Shr"}
+        last = p.split("::")[-1]
+        if last in opm and " as std::ops::" in p and len(t[2]) == 2:
+            a = eval_term(t[2][0], ev, depth + 1)
+            b = eval_term(t[2][1], ev, depth + 1)
+            if isinstance(a, int) and isinstance(b, int):
+                try:
+                    return _ARITH[opm[last]](a, b)
+                except (ValueError, OverflowError, ZeroDivisionError):
+                    return None
+            return None
+        if last in ("lt", "le", "gt", "ge") and ("PartialOrd" in p) and len(t[2]) == 2:
+            a = eval_term(t[2][0], ev, depth + 1)
+            b = eval_term(t[2][1], ev, depth + 1)
+            return _cmp({"lt": "Lt", "le": "Le", "gt": "Gt", "ge": "Ge"}[last], a, b)
         if (p.endswith("::eq") or p.endswith("::ne")) and len(t[2]) == 2:
             a = eval_term(t[2][0], ev, depth + 1)
             b = eval_term(t[2][1], ev, depth + 1)
